@@ -32,13 +32,14 @@ P = {
 
 checks = []
 for pid, (text, ref) in P.items():
+    engine = "dv + sched_fuzz (thorough)" if pid != "C14" else "dv + asan_real; sched_fuzz (thorough)"
     checks.append({
         "property_id": pid,
         "quick_cmd": f"./check {pid} quick",
         "thorough_cmd": f"./check {pid} thorough",
         "evidence_file": f"/verif/evidence/{pid}.json",
         "replay_cmd_template": "./check replay {path}",
-        "engine": "dv",
+        "engine": engine,
         "level_claimed": {
             "category": "exploration",
             "text": ("Generated-input search with the thread schedule as part of the generated case: proptest generates (configuration, program, schedule) triples, the real "
@@ -47,7 +48,8 @@ for pid, (text, ref) in P.items():
             "design_ref": "DESIGN.md section " + ref,
         },
         "level_note": COMMON_NOTE,
-        "technique": "property-based testing (proptest) with generated schedules on a controlled runtime; reference-model / history-invariant oracles; shrinking to a replay file",
+        "technique": ("property-based testing (proptest) with generated schedules on a controlled runtime; reference-model / history-invariant oracles; shrinking to a replay file; "
+                      "thorough tier adds coverage-guided fuzzing (libFuzzer) of the same cases" + ("; plus coverage-guided fuzzing of real-thread programs under AddressSanitizer" if pid == "C14" else "")),
     })
 
 m = {
@@ -62,6 +64,8 @@ m = {
  },
  "engines": [
    {"name": "dv", "path": "/verif/dv", "serves_properties": sorted(P.keys()), "kind_free_text": "property-based testing harness (proptest TestRunner per worker, 16 workers) driving the real library on the vsched controlled runtime; stateful programs as op lists + interpreter; shrinking; replay"},
+   {"name": "sched_fuzz", "path": "/verif/fuzz", "serves_properties": sorted(P.keys()), "kind_free_text": "cargo-fuzz / libFuzzer target (no sanitizer): bytes are decoded into (configuration, program, schedule), executed deterministically on vsched with the property's oracle inside the target; coverage feedback from the instrumented desync crate; used by every thorough tier"},
+   {"name": "asan_real", "path": "/verif/fuzz-asan", "serves_properties": ["C14"], "kind_free_text": "cargo-fuzz / libFuzzer target with AddressSanitizer on the UNSHIMMED /repo build: generated multi-threaded programs with real threads and block_on; heap canaries; part of C14's quick and thorough tiers"},
    {"name": "vsched", "path": "/verif/vsched", "serves_properties": sorted(P.keys()), "kind_free_text": "deterministic coroutine-based replacement for std Mutex/Condvar/thread/mpsc; the generated schedule picks the next task at every visible operation"},
  ],
  "checks": checks,
